@@ -181,3 +181,63 @@ Proof.
     rewrite Hl, rev_app_distr. rewrite lstrip_spaces; [reflexivity|].
     rewrite forallb_forall in *. intros x Hx. apply Hb. now apply in_rev.
 Qed.
+
+(* ------------------------------------------------------------------ same_scpd decides equality of the SCPD-relevant part *)
+Lemma opt_eqb_eq {A} (eqb : A -> A -> bool) (a b : option A) :
+  (forall x y, eqb x y = true -> x = y) -> opt_eqb eqb a b = true -> a = b.
+Proof. intros H. destruct a, b; cbn; intros E; try discriminate; [f_equal; now apply H | reflexivity]. Qed.
+Lemma list_eqb_eq {A} (eqb : A -> A -> bool) (a b : list A) :
+  (forall x y, eqb x y = true -> x = y) -> list_eqb eqb a b = true -> a = b.
+Proof.
+  intros H. unfold list_eqb. revert b. induction a as [|x a IH]; intros [|y b]; cbn; intros E; try discriminate; [reflexivity|].
+  apply andb_true_iff in E as [E1 E2]. f_equal; [now apply H | now apply IH].
+Qed.
+Lemma bool_eqb_eq a b : Bool.eqb a b = true -> a = b.
+Proof. now destruct a, b. Qed.
+
+Lemma svd_eqb_eq a b : svd_eqb a b = true -> a = b.
+Proof.
+  unfold svd_eqb. intros H. repeat (apply andb_true_iff in H as [H ?]).
+  destruct a as [a1 a2 a3 a4 a5 a6 a7], b as [b1 b2 b3 b4 b5 b6 b7]; cbn [sd_name sd_type sd_attr sd_evented sd_default sd_range sd_allowed] in *.
+  f_equal; try (now apply str_eqb_eq); try (now apply bool_eqb_eq).
+  - apply (opt_eqb_eq str_eqb); [apply str_eqb_eq | assumption].
+  - eapply opt_eqb_eq; [|eassumption]. intros [[x1 x2] x3] [[y1 y2] y3]. cbn [fst snd]. intros E.
+    repeat (apply andb_true_iff in E as [E ?]).
+    repeat f_equal; (apply (opt_eqb_eq str_eqb); [apply str_eqb_eq | assumption]).
+  - eapply opt_eqb_eq; [|eassumption]. intros x y. apply list_eqb_eq, str_eqb_eq.
+Qed.
+Lemma argd_eqb_eq a b : argd_eqb a b = true -> a = b.
+Proof.
+  unfold argd_eqb. intros H. repeat (apply andb_true_iff in H as [H ?]).
+  destruct a as [a1 a2 a3 a4], b as [b1 b2 b3 b4]; cbn [ag_name ag_in ag_retval ag_rsv] in *.
+  f_equal; try (now apply str_eqb_eq); now apply bool_eqb_eq.
+Qed.
+Lemma actd_eqb_eq a b : actd_eqb a b = true -> a = b.
+Proof.
+  unfold actd_eqb. intros H. apply andb_true_iff in H as [H1 H2].
+  destruct a as [a1 a2], b as [b1 b2]; cbn [ad_name ad_args] in *. f_equal; [now apply str_eqb_eq|].
+  eapply list_eqb_eq; [|eassumption]. apply argd_eqb_eq.
+Qed.
+Lemma corruption_eqb_eq a b : corruption_eqb a b = true -> a = b.
+Proof. destruct a, b; cbn; intros E; try discriminate; reflexivity. Qed.
+Lemma same_scpd_eq a b :
+  same_scpd a b = true -> s_vars a = s_vars b /\ s_actions a = s_actions b /\ s_corrupt a = s_corrupt b.
+Proof.
+  unfold same_scpd. intros H. apply andb_true_iff in H as [H H3]. apply andb_true_iff in H as [H1 H2].
+  repeat split; [eapply list_eqb_eq; [|eassumption]; apply svd_eqb_eq
+                | eapply list_eqb_eq; [|eassumption]; apply actd_eqb_eq | now apply corruption_eqb_eq].
+Qed.
+Lemma same_scpd_refl a : same_scpd a a = true.
+Proof.
+  assert (O : forall o, opt_eqb str_eqb o o = true) by (intros [x|]; cbn; [apply str_eqb_refl | reflexivity]).
+  assert (L : forall {A} (e : A -> A -> bool) l, (forall x, e x x = true) -> list_eqb e l l = true).
+  { intros A e l He. unfold list_eqb. induction l as [|x l IH]; cbn; [reflexivity|]. now rewrite He, IH. }
+  assert (V : forall v, svd_eqb v v = true).
+  { intros v. unfold svd_eqb. rewrite !str_eqb_refl, !eqb_reflx, O. cbn [andb].
+    assert (opt_eqb (list_eqb str_eqb) (sd_allowed v) (sd_allowed v) = true) as ->
+        by (destruct (sd_allowed v); cbn; [apply L, str_eqb_refl | reflexivity]).
+    rewrite andb_true_r. destruct (sd_range v) as [[[x y] z]|]; cbn; [now rewrite !O | reflexivity]. }
+  assert (G : forall g, argd_eqb g g = true) by (intros g; unfold argd_eqb; now rewrite !str_eqb_refl, !eqb_reflx).
+  assert (C : forall c, actd_eqb c c = true) by (intros c; unfold actd_eqb; now rewrite str_eqb_refl, L).
+  unfold same_scpd. rewrite !L by assumption. now destruct (s_corrupt a).
+Qed.
